@@ -173,6 +173,12 @@ type StructV struct{ fields []Value }
 type SliceV struct {
 	arr           *Obj
 	off, len, cap int
+	base          []PathElem // path of the backing array inside arr (arrays nested in structs)
+}
+
+// elemPtr is the address of element i of a slice.
+func elemPtr(s SliceV, i int) Ptr {
+	return Ptr{obj: s.arr, path: append(append([]PathElem{}, s.base...), PathElem{k: s.off + i})}
 }
 type StrV struct{ s string }
 type IfaceV struct {
